@@ -153,6 +153,7 @@ def _run_case(case, out):
             out.label("event-subclass")
         events.append(cls(_decode_time(t), _TARGET, "noop", p))
     n = len(events)
+    specs = [list(e) for e in case["pool"]]
     # reference key, independent of SimEvent's own comparison code
     refkey = [(_key_time(e.time), -case["pool"][i][1], i) for i, e in enumerate(events)]
     # (creation order i is the documented last tie-breaker, whatever the class of the event)
@@ -259,6 +260,24 @@ def _run_case(case, out):
             concrete.append(["clear"])
             mutating = True
             out.label("clear")
+            # an event created AFTER the clear that ties (same time, priority, class) with an older one: the older
+            # one still comes first.  Both are put on the list, the newer one first.
+            if n < 200:
+                j = opi % n
+                entry = specs[j]
+                e_new = classes[entry[2] if len(entry) > 2 else 0](_decode_time(entry[0]), _TARGET, "noop", entry[1])
+                events.append(e_new)
+                specs.append(entry)
+                refkey.append((_key_time(e_new.time), -entry[1], n))
+                if not e_new.id > events[n - 1].id:
+                    out.fail("id-not-increasing", {"after": "clear", "new": e_new.id, "previous": events[n - 1].id})
+                n += 1
+                for i in (n - 1, j):
+                    el.add(events[i])
+                    pending.append(i)
+                    history.append(("add", i))
+                    concrete.append(["add", i])
+                out.label("event-created-after-clear")
 
         # observers after every op
         if el.size() != len(pending):
